@@ -66,6 +66,10 @@ SITES = {
     "term_alias": lambda Q, N: Q.from_(T()).select(T().a.as_(N)),
     "term_alias_func": lambda Q, N: Q.from_(T()).select(FN.Max(T().a).as_(N), (T().b + 1).as_("k")),
     "alias_ref_group_order": lambda Q, N: Q.from_(T()).select((T().a + 1).as_(N), FN.Count("*")).groupby((T().a + 1).as_(N)).orderby((T().a + 1).as_(N)),
+    # another continuation of the same partial query selected an item under the alias; this one did not: the alias is not
+    # a name of this statement and must not be emitted (the grouped / ordered term is printed as an expression)
+    "alias_of_sibling_only": lambda Q, N: (lambda base: (base.select((T().a + 1).as_(N)), base.select(T().b).groupby((T().a + 1).as_(N)).orderby((T().a + 1).as_(N)))[1])(
+        Q.from_(T())),
     "subquery_alias": lambda Q, N: (lambda s: Q.from_(s).select(s.a))(Q.from_(T()).select("a").as_(N)),
     "index_force": lambda Q, N: Q.from_(T()).select("a").force_index(N),
     "index_use": lambda Q, N: Q.from_(T()).select("a").use_index(Index(N)),
@@ -96,6 +100,7 @@ SITES = {
 }
 
 
+EXPECT_ABSENT = {"alias_of_sibling_only"}
 EXPECT_COUNTS = {"ddl_constraint_case": (3, 1), "ddl_constraint_case_late": (1, 2)}
 
 
@@ -200,6 +205,10 @@ def run_case(case):
                 res.violate(sigbase + ("" if quote_in_name else "|structure"), "the name changed another token of the statement",
                             dialect=d, site=site, name=N, sql=sql, benign=bsql, token=t.text)
                 return res
+    if site in EXPECT_ABSENT:
+        if any(t.kind == "ID" and t.value == N for t in toks) and N not in ("a", "b", "t"):
+            res.violate("C07|%s|undefined-name-emitted" % site, "a name that this statement does not define is emitted", dialect=d, site=site, name=N, sql=sql)
+        return res
     if n_ids == 0:
         res.violate("C07|%s|%s|name-not-emitted" % (site, d), "the benign name does not appear as a token at all", dialect=d, site=site, sql=bsql)
     # absolute expectations (the rendering with the benign name comes from the same library and cannot vouch for these)
